@@ -290,7 +290,7 @@ func (f *FibStrategyTree) GetAllFIBEntries() []FibStrategyEntry {
 
 		// If has any nexthop entries, add to list
 		if len(fsEntry.nexthops) > 0 {
-			entries = append(entries, fsEntry)
+			entries = append(entries, fsEntry.snapshot())
 		}
 	}
 	return entries
@@ -347,7 +347,7 @@ func (f *FibStrategyTree) GetAllForwardingStrategies() []FibStrategyEntry {
 
 		// If has any nexthop entries, add to list
 		if fsEntry.strategy != nil {
-			entries = append(entries, fsEntry)
+			entries = append(entries, fsEntry.snapshot())
 		}
 	}
 	return entries
